@@ -38,9 +38,10 @@ JacobianIncluded == \A c \in {0 - 3, 0, 5} : ShiftLogProb(c) = c /\ ShiftSampleL
 
 ASSUME SampleEvalAgree /\ VariantsRejected /\ JacobianIncluded
 
-Cells == { [backend |-> b, bounded |-> bt, affine |-> a, dtype |-> d, state |-> s] :
+\* refit: the same flow object is fitted twice (first on other data), as Aspire.fit does on a second call
+Cells == { [backend |-> b, bounded |-> bt, affine |-> a, dtype |-> d, state |-> s, refit |-> r] :
              b \in {"zuko", "flowjax"}, bt \in {"logit", "probit", "off"}, a \in BOOLEAN,
-             d \in {"float32", "float64"}, s \in {"untrained", "trained", "reloaded"} }
+             d \in {"float32", "float64"}, s \in {"untrained", "trained", "reloaded"}, r \in BOOLEAN }
 ASSUME PrintT(<<"NCASES", Cardinality(Cells)>>)
 ASSUME JsonSerialize(IOEnv.OUT_FILE, [cells |-> SetToSeq(Cells), shift_log_prob |-> ShiftLogProb(5),
                                        shift_sample_log_q |-> ShiftSampleLogQ(5)])
